@@ -177,6 +177,39 @@ def run(ctx) -> None:
     revalidate_head(ctx, RQ, qpaths, qci)
     delay_elapsed(ctx, RQ, P, qpaths, qci)
 
+    # ---- the record's own predicates and accessors (every rule above treats `rec.is_x` / `rec.name` as what their names say)
+    RPd = ctx.rule(
+        "C03/record-predicates-decode-their-flag",
+        "InotifyEvent.is_<x> is `mask & IN_<X> > 0` for the flag of the same name; is_directory is DELETE_SELF or MOVE_SELF or ISDIR; "
+        "wd / mask / cookie / name / src_path return the fields the constructor stored from the parameters of the same name",
+        floor=18,
+    )
+    ie = P.cls("InotifyEvent")
+    for name, mfi in sorted(ie.methods.items()):
+        rets = [n.value for n in ast.walk(mfi.node) if isinstance(n, ast.Return) and n.value is not None]
+        if name.startswith("is_") and name != "is_directory":
+            want = "IN_" + name[3:].upper()
+            r = rets[0] if len(rets) == 1 else None
+            ok = (
+                isinstance(r, ast.Compare)
+                and len(r.ops) == 1
+                and ((isinstance(r.ops[0], ast.Gt) and ast.unparse(r.comparators[0]) == "0") or (isinstance(r.ops[0], ast.NotEq) and ast.unparse(r.comparators[0]) == "0"))
+                and isinstance(r.left, ast.BinOp)
+                and isinstance(r.left.op, ast.BitAnd)
+                and {ast.unparse(r.left.left), ast.unparse(r.left.right)} == {"self._mask", f"InotifyConstants.{want}"}
+            )
+            ctx.check(ok, RPd, f"InotifyEvent.{name}", f"returns `{ast.unparse(r) if r is not None else None}`; expected `self._mask & InotifyConstants.{want} > 0`: every record of that kind is misclassified", mfi.loc)
+        elif name == "is_directory":
+            r = rets[0] if len(rets) == 1 else None
+            parts = {ast.unparse(v) for v in r.values} if isinstance(r, ast.BoolOp) and isinstance(r.op, ast.Or) else set()
+            ctx.check(parts == {"self.is_delete_self", "self.is_move_self", "self._mask & InotifyConstants.IN_ISDIR > 0"}, RPd, "InotifyEvent.is_directory", f"returns `{ast.unparse(r) if r is not None else None}`; expected DELETE_SELF or MOVE_SELF or the ISDIR bit (the flavour of every event follows it)", mfi.loc)
+        elif name in ("wd", "mask", "cookie", "name", "src_path"):
+            ok = len(rets) == 1 and ast.unparse(rets[0]) == f"self._{name}"
+            ctx.check(ok, RPd, f"InotifyEvent.{name}", f"returns `{ast.unparse(rets[0]) if rets else None}` instead of the stored field", mfi.loc)
+    ini = ie.methods.get("__init__")
+    stores = {ast.unparse(n.targets[0]): ast.unparse(n.value) for n in ast.walk(ini.node) if isinstance(n, ast.Assign) and len(n.targets) == 1} if ini else {}
+    ctx.check(all(stores.get(f"self._{k}") == k for k in ("wd", "mask", "cookie", "name", "src_path")), RPd, "InotifyEvent.__init__ stores its parameters", f"constructor stores {stores}", ini.loc if ini else ie.loc)
+
     # ---- synthetic flag ownership
     from ..fixtures import FX_SYNTH, must_fire, synthetic_marks
 
@@ -245,6 +278,11 @@ def run(ctx) -> None:
 IN = "observers/inotify.py"
 EV = "events.py"
 VARIANTS = [
+    dict(name="B is_ignored never true", expect="fire", rule="C03/record-predicates-decode-their-flag", edits=[("observers/inotify_c.py", "        return self._mask & InotifyConstants.IN_IGNORED > 0", "        return None")]),
+    dict(name="B is_modify tests the attrib bit", expect="fire", rule="C03/record-predicates-decode-their-flag", edits=[("observers/inotify_c.py", "        return self._mask & InotifyConstants.IN_MODIFY > 0", "        return self._mask & InotifyConstants.IN_ATTRIB > 0")]),
+    dict(name="B is_directory ignores the ISDIR bit", expect="fire", rule="C03/record-predicates-decode-their-flag", edits=[("observers/inotify_c.py", "        return self.is_delete_self or self.is_move_self or self._mask & InotifyConstants.IN_ISDIR > 0", "        return self.is_delete_self or self.is_move_self")]),
+    dict(name="B name accessor returns the path", expect="fire", rule="C03/record-predicates-decode-their-flag", edits=[("observers/inotify_c.py", "        return self._name\n", "        return self._src_path\n")]),
+    dict(name="E predicate written with != 0", expect="silent", edits=[("observers/inotify_c.py", "        return self._mask & InotifyConstants.IN_OPEN > 0", "        return self._mask & InotifyConstants.IN_OPEN != 0")]),
     dict(name="B swap Dir/File arms in the delete branch", expect="fire", rule="C03/emission-contract", edits=[(IN, "                cls = DirDeletedEvent if event.is_directory else FileDeletedEvent\n                self.queue_event(cls(src_path))\n                self.queue_event(DirModifiedEvent(os.path.dirname(src_path)))\n            elif event.is_moved_from and full_events:", "                cls = FileDeletedEvent if event.is_directory else DirDeletedEvent\n                self.queue_event(cls(src_path))\n                self.queue_event(DirModifiedEvent(os.path.dirname(src_path)))\n            elif event.is_moved_from and full_events:")]),
     dict(name="B drop the parent event after MOVED_TO", expect="fire", rule="C03/emission-contract", edits=[(IN, "                    self.queue_event(cls(src_path))\n                self.queue_event(DirModifiedEvent(os.path.dirname(src_path)))\n                if event.is_directory and self.watch.is_recursive:", "                    self.queue_event(cls(src_path))\n                if event.is_directory and self.watch.is_recursive:")]),
     dict(name="B swap src/dest of the paired move", expect="fire", rule="C03/emission-contract", edits=[(IN, "self.queue_event(cls(src_path, dest_path))", "self.queue_event(cls(dest_path, src_path))")]),
